@@ -876,3 +876,25 @@ Proof.
   - repeat constructor; simpl; intuition lia.
   - simpl. lra.
 Qed.
+
+(* ================================================================== amplitude precedence: total table *)
+Lemma rms_table rms T Rs fmin fmax :
+  noise_rms rms T Rs fmin fmax =
+  match rms, T, Rs with
+  | Some r, _, _ => Some r
+  | None, Some t, Some rs => Some (sqrt (k_B * t * rs * (fmax - fmin)))
+  | None, _, _ => None
+  end.
+Proof. destruct rms, T, Rs; reflexivity. Qed.
+
+Lemma rms_zero T Rs fmin fmax : noise_rms (Some 0) T Rs fmin fmax = Some 0.
+Proof. reflexivity. Qed.
+
+Lemma fft_zero_rms z t : fn_rms z = 0 -> fft_noise_value z t = 0.
+Proof.
+  intros H. unfold fft_noise_value. cbv zeta.
+  destruct (length (fn_bins z) =? 0)%nat; [reflexivity|]. rewrite H. ring.
+Qed.
+
+Lemma full_zero_rms freqs amps phases t : full_noise_value freqs amps phases 0 t = 0.
+Proof. unfold full_noise_value. ring. Qed.
